@@ -26,10 +26,10 @@ func w(s string) []string { return strings.Fields(s) }
 func catalogue() map[string][][]string {
 	fence := "NEARBY k9 FENCE POINT 50 50 100"
 	c := map[string][][]string{
-		"SET": {w("SET k1 a POINT 1 2"), w("SET k1 n FIELD f 1 EX 100 POINT 3 4 5"), w("SET k1 a NX POINT 1 2"), w("SET k3 x XX POINT 1 2"),
+		"SET": {w("SET k1 r RETURN HASH 5 POINT 1 2"), w("SET k1 r RETURN BOUNDS POINT 1 2"), w("SET k1 r RETURN OBJECT POINT 1 2 3"), w("SET k1 r RETURN HASH 99 POINT 1 2"), w("SET k1 r RETURN POINT STRING sv"), w("SET k1 r NX RETURN POINT 1 2"), w("SET k1 a NX RETURN POINT 1 2"), w("SET k1 zz XX RETURN POINT 1 2"), w("SET k1 r RETURN"), w("SET k1 r EX 0 POINT 1 2"), w("SET k1 r EX -5 POINT 1 2"), w("SET k1 r HASH 9q8yy"), w("SET k1 r HASH"), w("SET k1 r HASH !!"), w("SET k1 a POINT 1 2"), w("SET k1 n FIELD f 1 EX 100 POINT 3 4 5"), w("SET k1 a NX POINT 1 2"), w("SET k3 x XX POINT 1 2"),
 			{"SET", "k1", "o", "OBJECT", gPoly}, w("SET k1 s STRING hello"), w("SET k1 h HASH 9tbnwg"), w("SET k1 b BOUNDS 1 2 3 4"),
 			w("SET k1 r RETURN POINT 1 2"), w("SET k1 r FIELD f 1 RETURN WITHFIELDS POINT 1 2"), w("SET k1 a"), w("SET k1"), w("SET k1 a POINT x y"), w("SET k1 a FIELD z 1 POINT 1 2"), {"SET", "k1", "a", "OBJECT", "{bad"}},
-		"FSET": {w("FSET k1 a f 5"), w("FSET k1 a f 1 g x"), w("FSET k1 nope XX f 1"), w("FSET k1 nope f 1"), w("FSET nokey a f 1"), w("FSET k1 a f"), w("FSET k1 a z 1"),
+		"FSET": {w("FSET k1 a f 4 RETURN POINT"), w("FSET k1 a f 4 RETURN HASH 3"), w("FSET k1 b y 1 RETURN OBJECT"), w("FSET k1 a XX f 5 RETURN WITHFIELDS BOUNDS"), w("FSET k1 a f 5"), w("FSET k1 a f 1 g x"), w("FSET k1 nope XX f 1"), w("FSET k1 nope f 1"), w("FSET nokey a f 1"), w("FSET k1 a f"), w("FSET k1 a z 1"),
 			w("FSET k1 a f 2 RETURN"), w("FSET k1 a f 3 RETURN WITHFIELDS"), w("FSET k1 nope XX f 1 RETURN"), w("FSET k1 a RETURN f 1")},
 		"FGET":           {w("FGET k1 a g"), w("FGET k1 b x"), w("FGET k1 c properties.n"), w("FGET k1 a f"), w("FGET k1 a nofield"), w("FGET k1 nope f"), w("FGET nokey a f"), w("FGET k1 a")},
 		"GET":            {w("GET k1 c OBJECT"), w("GET k1 a HASH 1"), w("GET k1 a HASH 12"), w("GET k1 a HASH 0"), w("GET k1 b POINT"), w("GET k1 b BOUNDS"), w("GET k1 b HASH 5"), w("GET k1 c POINT"), w("GET k1 c WITHFIELDS BOUNDS"), w("GET k2 a POINT"), w("GET k2 a HASH 6"), w("GET k1 a"), w("GET k1 a WITHFIELDS"), w("GET k1 a POINT"), w("GET k1 a BOUNDS"), w("GET k1 a HASH 7"), w("GET k1 b"), w("GET k1 nope"), w("GET nokey a"), w("GET k1"), w("GET k1 a HASH 99"), w("GET k1 a BOGUS")},
